@@ -1555,6 +1555,13 @@ def gen_C19(tier, rng):
             # conversions back and forth (the table -> diagram one is known finding D1 on both sides)
             for tgt in "ETB":
                 k = c.r("conv %s %d" % (tgt, x)); c.q("obs %d" % k)
+        # comparisons whose answer is YES: the same function declared over one more input (sorting before, between
+        # or after the others), in both directions and with itself -- a random pair is almost never equivalent
+        pad_ = rng.choice(["0", "ab", "zz"])
+        pregs = py_reps(c, gen.A([e, gen.O([gen.L(pad_), gen.Nn(gen.L(pad_))])]))
+        for x, y in zip(regs, pregs):
+            for a_, b_ in ((x, y), (y, x), (x, x)):
+                c.q("equiv %d %d" % (a_, b_)); c.q("implied %d %d" % (a_, b_)); c.q("semeq %d %d" % (a_, b_))
         k = c.r("mkconst E %d" % rng.randint(0, 1)); c.q("show %d" % k)
         k = c.r("mkconst B %d" % rng.randint(0, 1)); c.q("enum %d" % k)
         k = c.r("mkliteral E %s %d" % (hexname("q"), rng.randint(0, 1))); c.q("show %d" % k)
